@@ -258,6 +258,16 @@ def _reuse(*lists):
 PUBLIC_OPS = ('iszero_pub', 'eq_pub')
 
 
+def timing_skew(spec):
+    """does the program make the parties reach some top-level call at different moments (relative to their other work)?  Sources: one party yielding to
+    its event loop (`sleepy`), a public result awaited in the middle of the program and used as an operand, a result opened early (`early_await`)."""
+    if spec.get('sleepy') is not None or spec.get('early_await') is not None:
+        return True
+    n_in = len(spec['inputs'])
+    pub = {n_in + k for k, (op, args, c) in enumerate(spec['steps']) if op in PUBLIC_OPS}
+    return any(i in pub for op, args, c in spec['steps'] for i in args)
+
+
 def build(spec, on_node=None, do_shutdown_sync=False):
     """async program(mpc, pid) -> list of output groups (ints).  Public-result nodes (futures of bools) become ints.
     on_node(k, secure_or_future) lets a check register program-visible nodes (e.g. for the share monitor)."""
